@@ -37,6 +37,28 @@ var traitKinds = map[string]traitKind{
 	"dur":   {model: "named", lit: func(i int) string { return fmt.Sprintf("time.Duration(%d) * time.Second", i+1) }, imp: "time", uniq: true},
 	"month": {model: "named", lit: func(i int) string { return fmt.Sprintf("time.Month(%d)", i%12+1) }, imp: "time", uniq: true},
 	"fmode": {model: "named", lit: func(i int) string { return fmt.Sprintf("os.FileMode(%d)", 0o600+i) }, imp: "os", uniq: true},
+	// bare later-row literals: the first row fixes the trait's type, the rows after it are written
+	// as bare integer literals (which the generated Parse switch copies verbatim)
+	"ibare": {model: "untyped_int", lit: func(i int) string { return strconv.Itoa(i + 1) }, uniq: true},
+	"fbare": {model: "float64", lit: func(i int) string {
+		if i == 0 {
+			return "float64(0.5)"
+		}
+		return strconv.Itoa(i)
+	}, uniq: true, float: true},
+	"nbare": {model: "named", lit: func(i int) string {
+		if i == 0 {
+			return "Level(50)"
+		}
+		return strconv.Itoa(i + 2)
+	}, decl: "type Level int\n", uniq: true},
+	// like fbare on the SAME members (out of domain: two parsable traits spelling one literal on one member)
+	"nsame": {model: "named", lit: func(i int) string {
+		if i == 0 {
+			return "Level(50)"
+		}
+		return strconv.Itoa(i)
+	}, decl: "type Level int\n", uniq: true},
 	"label": {model: "named", lit: func(i int) string { return fmt.Sprintf("Label(%q)", fmt.Sprintf("l%d", i)) }, decl: "type Label string\n", uniq: true},
 	"level": {model: "named", lit: func(i int) string { return fmt.Sprintf("Level(%d)", 50+i) }, decl: "type Level int\n", uniq: true},
 	"code": {model: "named", lit: func(i int) string { return fmt.Sprintf("Code(%q)", fmt.Sprintf("c%d", i)) }, uniq: true, self: true, imp: "encoding/json",
@@ -66,6 +88,9 @@ var traitKindNames = func() []string {
 		if len(k) == 3 && k[0] == 'p' && (k[2] == '0' || k[2] == '1') {
 			continue // session kinds are not drawn at random
 		}
+		if strings.HasSuffix(k, "bare") || k == "nsame" {
+			continue // bare-literal kinds collide with each other by construction; used in fixed cases only
+		}
 		r = append(r, k)
 	}
 	sort.Strings(r)
@@ -83,6 +108,7 @@ type genumCase struct {
 	under  string  // underlying type of the enum
 	traits []traitCol
 	shape  string // plain | dup (deprecated duplicate of the last value, no trait columns) | duptraits | two (two enum types) | dup2 | alias
+	file   string // stem of the definition file name ("" = defs)
 	only1  bool   // shape two: the run under test asks for the first type only
 	prev   string // "" | allon | moretypes: a previous run with a LONGER output precedes the run under test in the same package
 	bad    string // out-of-domain malformation ("" = in domain)
@@ -116,6 +142,9 @@ func (c *genumCase) header() string {
 		}
 	}
 	h := fmt.Sprintf("case gg genum o=%s n=%d under=%s traits=%s shape=%s", o, c.n, c.under, strings.Join(tr, ","), c.shape)
+	if c.file != "" {
+		h += " file=" + c.file
+	}
 	if c.only1 {
 		h += " only1=t"
 	}
@@ -140,7 +169,7 @@ func kv(ws []string) map[string]string {
 
 func parseGenum(ws []string) (*genumCase, error) {
 	m := kv(ws)
-	c := &genumCase{under: m["under"], shape: m["shape"], bad: m["bad"], only1: m["only1"] == "t", prev: m["prev"]}
+	c := &genumCase{under: m["under"], shape: m["shape"], bad: m["bad"], only1: m["only1"] == "t", prev: m["prev"], file: m["file"]}
 	if len(m["o"]) != 5 {
 		return nil, fmt.Errorf("bad options")
 	}
@@ -399,8 +428,9 @@ var gerrTypes = map[string]struct{ goType, imp, decl string }{
 
 type gerrorCase struct {
 	skip   bool
-	custom bool   // with skip: the definition file has hand-written Convert/ConvertS
-	two    bool   // two error types in one file
+	custom bool // with skip: the definition file has hand-written Convert/ConvertS
+	two    bool // two error types in one file
+	file   string
 	only1  bool   // with two: the run under test asks for the first type only
 	prev   string // "" | noskip | moretypes: previous, longer output in the same package
 	fields []gerrField
@@ -413,6 +443,9 @@ func (c *gerrorCase) header() string {
 		fs[i] = f.name + ":" + f.typ + ":" + f.tag
 	}
 	h := fmt.Sprintf("case gg gerror skip=%s custom=%s two=%s fields=%s", tf(c.skip), tf(c.custom), tf(c.two), strings.Join(fs, ","))
+	if c.file != "" {
+		h += " file=" + c.file
+	}
 	if c.only1 {
 		h += " only1=t"
 	}
@@ -427,7 +460,7 @@ func (c *gerrorCase) header() string {
 
 func parseGerror(ws []string) (*gerrorCase, error) {
 	m := kv(ws)
-	c := &gerrorCase{skip: m["skip"] == "t", custom: m["custom"] == "t", two: m["two"] == "t", bad: m["bad"], only1: m["only1"] == "t", prev: m["prev"]}
+	c := &gerrorCase{skip: m["skip"] == "t", custom: m["custom"] == "t", two: m["two"] == "t", bad: m["bad"], only1: m["only1"] == "t", prev: m["prev"], file: m["file"]}
 	if m["fields"] != "" {
 		for _, f := range strings.Split(m["fields"], ",") {
 			p := strings.SplitN(f, ":", 3)
@@ -604,6 +637,7 @@ func gsortType(t string) (gsortTypeInfo, bool) {
 type gsortCase struct {
 	fields []gsortField
 	two    bool
+	file   string
 	only1  bool
 	prev   string // "" | moretypes
 	bad    string
@@ -615,6 +649,9 @@ func (c *gsortCase) header() string {
 		fs[i] = f.name + ":" + f.typ + ":" + strings.Join(f.tags, "+")
 	}
 	h := fmt.Sprintf("case gg gsort two=%s fields=%s", tf(c.two), strings.Join(fs, ";"))
+	if c.file != "" {
+		h += " file=" + c.file
+	}
 	if c.only1 {
 		h += " only1=t"
 	}
@@ -629,7 +666,7 @@ func (c *gsortCase) header() string {
 
 func parseGsort(ws []string) (*gsortCase, error) {
 	m := kv(ws)
-	c := &gsortCase{two: m["two"] == "t", bad: m["bad"], only1: m["only1"] == "t", prev: m["prev"]}
+	c := &gsortCase{two: m["two"] == "t", bad: m["bad"], only1: m["only1"] == "t", prev: m["prev"], file: m["file"]}
 	if m["fields"] != "" {
 		for _, f := range strings.Split(m["fields"], ";") {
 			p := strings.SplitN(f, ":", 3)
